@@ -184,7 +184,10 @@ def objects(ctx, prog, A):
         ml = schedlaws.ModeLaws(prog, A, mode, kinds=('token', 'object'))
         total += ml.check(ctx, 'R3.object', only_laws=set(schedlaws.MODES[mode]['object']))
         for ck, f, ins in ml.unknown_effects():
-            broken('allocation/release class %s at %s belongs to no conservation law' % (ck, f.loc(ins)))
+            # an allocation (or release) in steady-state code whose class no law mentions: nothing bounds how many of
+            # these objects are alive (a cache, a free-list, a buffer kept "for later")
+            ctx.ob('R3.object', 'allocation/release class %s [%s] is covered by a conservation law' % (ck, mode), f.loc(ins),
+                   False, 'the population of this object class is not tied to any token or queue')
     ctx.floor('object-law obligations', total, 30)
 
 
